@@ -144,7 +144,7 @@ def make_sequence(kind):
     return ks, iface, mkstate, recompute, valsof, free, kst, param_keys, rec
 
 
-def scenario(chk, kind):
+def scenario(chk, kind, finite_uf=False):
     from liesel.goose.kernel_sequence import KernelSequence
     rec = {}
     with K.stub_blackjax(rec):
@@ -178,7 +178,7 @@ def scenario(chk, kind):
         f_seq, f_orc = K.with_stub(f_seq, rec), K.with_stub(f_orc, rec)
         key = jax.random.PRNGKey(9)
         okeys = jax.random.split(key, n)
-        pre = "".join(ch for ch in kind if ch.isalnum())
+        pre = "".join(ch for ch in kind if ch.isalnum()) + ("fu" if finite_uf else "")
         s_kst = symlike(kst, pre + "ks")
         s_free = symlike(free, pre + "s")
         dom = {}
@@ -190,10 +190,12 @@ def scenario(chk, kind):
                 v = float(v)
                 dom[c.decl().name()] = (0.7 * v, 1.3 * v) if v > 0 else ((1.3 * v, 0.7 * v) if v < 0 else (-0.5, 0.5))
         chol = "explicit"
-        e_seq = chk.note_enc(Enc(f"KernelSequence.transition[{kind}]", f_seq, (key, kst, free), (root_key("k"), s_kst, s_free), key_roots={"k": key}, domain=dom, chol=chol))
+        fu = dict(finite_uf=True) if finite_uf else {}
+        sfx = " (is_finite arbitrary)" if finite_uf else ""
+        e_seq = chk.note_enc(Enc(f"KernelSequence.transition[{kind}]{sfx}", f_seq, (key, kst, free), (root_key("k"), s_kst, s_free), key_roots={"k": key}, domain=dom, chol=chol, **fu))
         okey_sym = np.stack([root_key(f"o{i}") for i in range(n)])
-        e_orc = chk.note_enc(Enc(f"sequential composition[{kind}]", f_orc, (okeys, kst, free), (okey_sym, s_kst, s_free),
-                                 key_roots={f"o{i}": okeys[i] for i in range(n)}, domain=dom, chol=chol))
+        e_orc = chk.note_enc(Enc(f"sequential composition[{kind}]{sfx}", f_orc, (okeys, kst, free), (okey_sym, s_kst, s_free),
+                                 key_roots={f"o{i}": okeys[i] for i in range(n)}, domain=dom, chol=chol, **fu))
     return e_seq, e_orc, ks, param_keys, s_free, recompute is not None
 
 
@@ -306,6 +308,28 @@ def main():
         e_seq, e_orc, ks, param_keys, s_free, has_derived = res
         obs += obligations(kind, e_seq, e_orc, ks, param_keys, s_free, has_derived)
         chk.validate(e_seq)
+    # error paths: `is_finite` as an arbitrary predicate, so that code reacting to non-finite draws is reachable in real arithmetic
+    kind = "liesel:RW+Gibbs"
+    res = chk.guarded(f"{kind}:trace-finite", f"[{kind}] tracing the kernel sequence (is_finite arbitrary)", scenario, chk, kind, True)
+    if res is not None:
+        e_seq, e_orc, ks, param_keys, s_free, has_derived = res
+        ob = [o for o in obligations(kind, e_seq, e_orc, ks, param_keys, s_free, False) if o.signature.endswith(":composition")][0]
+        ob.name = ob.name + " -- also when a draw is non-finite (is_finite an arbitrary predicate)"
+        ob.signature = f"{kind}:composition:non-finite"
+
+        def replay_nf(o_, model, rng, e_seq=e_seq, e_orc=e_orc):
+            """real run with a NaN observation (the Gibbs draw becomes NaN): sequence vs kernels applied one after the other with the same keys"""
+            key, kst, free = e_seq.example_args
+            free = dict(free)
+            free["y_value"] = jnp.asarray(free["y_value"]).at[0].set(jnp.nan)
+            a = e_seq.fn(key, kst, free)["new"]
+            b = e_orc.fn(jax.random.split(key, len(ks)), kst, free)["new"]
+            diff = [k for k in a if not np.allclose(np.asarray(a[k]), np.asarray(b[k]), rtol=1e-5, atol=1e-6, equal_nan=True)]
+            return dict(reproduced=bool(diff), inputs=dict(y_value="first observation NaN"), observed=dict(differing_entries=diff[:6], sequence={k: np.asarray(a[k]).tolist() for k in diff[:3]},
+                                                                                                          one_after_the_other={k: np.asarray(b[k]).tolist() for k in diff[:3]}),
+                        note="KernelSequence.transition differs from running its kernels one after the other when a draw is non-finite" if diff else "identical also with a NaN draw")
+        ob.custom_replay = replay_nf
+        obs.append(ob)
     chk.run(obs)
     chk.functions += ["liesel.goose.kernel_sequence.KernelSequence.transition", "liesel.goose.rw.RWKernel.transition", "liesel.goose.gibbs.GibbsKernel.transition", "liesel.goose.mh_kernel.MHKernel.transition",
                       "liesel.goose.iwls.IWLSKernel.transition", "liesel.goose.nuts.NUTSKernel.transition (blackjax stubbed)", "liesel.goose.mh.mh_step", "liesel.goose.interface.LieselInterface/DictInterface.update_state"]
